@@ -417,6 +417,9 @@ def c14_legs(tier):
     if tier == "thorough":
         legs.append(leg("debug", "debug", ["c14"], timeout=t, mandatory=False))
         legs.append(leg("asan-stress", "asan", ["c14", "--part", "stress", "--tier-override", "quick"], timeout=t, mandatory=False))
+        # ThreadSanitizer (std rebuilt with instrumentation) over the multi-core stress rounds and the pause-point catalogue
+        legs.append(leg("tsan-stress", "tsan", ["c14", "--part", "stress"], timeout=t, mandatory=False))
+        legs.append(leg("tsan-catalogue", "tsan", ["c14", "--part", "schedules", "--tier-override", "quick"], timeout=t, mandatory=False))
         for i in range(4):
             legs.append(leg(f"release-s{i+1}", "release", ["c14", "--part", "stress", "--seed-add", str(i + 1)], timeout=t, mandatory=False))
     return legs
@@ -424,7 +427,7 @@ def c14_legs(tier):
 
 PROPS["C14"] = {
     "level": "exploration",
-    "technique": "runtime monitoring: schedule control at verif points (pause A at each point, run B/C, search a real-time-respecting serial order against the reference model), multi-core stress with an offline history checker (commit order = offset order, real-time windows), gdb-exhibited lock cycles for hangs, child-process growth scenarios",
+    "technique": "runtime monitoring: schedule control at verif points (pause A at each point, run B/C, search a real-time-respecting serial order against the reference model), multi-core stress with an offline history checker (commit order = offset order, real-time windows), gdb-exhibited lock cycles for hangs, child-process growth scenarios; thorough: ThreadSanitizer and ASan builds of the same workloads",
     "level_text": ("Leg 1 (deterministic): for ~55 catalogued operation pairs/triples on one store (a query over several authors / kinds / tag values parked inside its scan, at the caller's screen callback, while two stores commit; same event 2-3x; "
                    "older/newer/equal events for one replaceable or parameterised address, with a query; store vs "
                    "find_events/get_event_by_id/has_event and the reverse; remove vs query; deletion request vs store "
